@@ -14,11 +14,15 @@ import (
 	"encoding/json"
 	"flag"
 	"fmt"
+	goast "go/ast"
+	"go/parser"
+	"go/token"
 	"os"
 	"path/filepath"
 	"regexp"
 	"runtime"
 	"runtime/debug"
+	"strconv"
 	"strings"
 	"sync"
 	"time"
@@ -493,7 +497,70 @@ func opJson(c Case, r Result) {
 	r["json"] = outs
 }
 
+// lex: {"op":"lex","src_hex":..} -> the token stream of the lexer (type, lexeme) or the lex error
+func opLex(c Case, r Result) {
+	src := bytesArg(c, "src")
+	toks, err := ast.VerifLex(strings.NewReader(src))
+	if err != nil {
+		r["err"] = err.Error()
+		r["errclass"] = errClass(err)
+		return
+	}
+	parts := []string{}
+	for _, t := range toks {
+		if t == nil {
+			parts = append(parts, "(nil)")
+			continue
+		}
+		parts = append(parts, paren(t.TokenType.PP(), hx(t.Lexeme)))
+	}
+	r["tokens"] = paren(parts...)
+}
+
+// corpus: {"op":"corpus","dir":"/repo"} -> every Go string literal of the repository's test files that
+// looks like a vore program (starts with find/replace/set), with whether it compiles
+func opCorpus(c Case, r Result) {
+	dir := str(c, "dir")
+	seen := map[string]bool{}
+	out := [][]string{}
+	filepath.Walk(dir, func(path string, info os.FileInfo, err error) error {
+		if err != nil || info.IsDir() || !strings.HasSuffix(path, "_test.go") {
+			return nil
+		}
+		fset := token.NewFileSet()
+		f, perr := parser.ParseFile(fset, path, nil, 0)
+		if perr != nil {
+			return nil
+		}
+		goast.Inspect(f, func(n goast.Node) bool {
+			if bl, ok := n.(*goast.BasicLit); ok && bl.Kind == token.STRING {
+				v, uerr := strconv.Unquote(bl.Value)
+				if uerr != nil || seen[v] {
+					return true
+				}
+				low := strings.ToLower(strings.TrimSpace(v))
+				if strings.HasPrefix(low, "find") || strings.HasPrefix(low, "replace") || strings.HasPrefix(low, "set ") {
+					seen[v] = true
+					okc := "f"
+					func() {
+						defer func() { recover() }()
+						if _, e := ast.ParseReader(strings.NewReader(v)); e == nil {
+							okc = "t"
+						}
+					}()
+					out = append(out, []string{hex.EncodeToString([]byte(v)), okc})
+				}
+			}
+			return true
+		})
+		return nil
+	})
+	r["programs"] = out
+}
+
 var ops = map[string]func(Case, Result){
+	"corpus":  opCorpus,
+	"lex":     opLex,
 	"json":    opJson,
 	"conc":    opConc,
 	"glob":    opGlob,
